@@ -374,8 +374,9 @@ def _run_impl(scn):
         fsm = build_fsm(scn, rec, env)
     except Exception as err:
         vtime.uninstall()
-        if scn['kind'] == 'timer' and isinstance(err, (TypeError, ValueError)) and scn.get('ctor_may_fail'):
-            # the constructor refused its keyword arguments: the model's `timerNew` must refuse them too
+        if scn['kind'] == 'timer':
+            # the constructor refused its keyword arguments: the model's `timerNew` must refuse them too (with the
+            # same kind of error); the oracle knows from the scenario alone whether a refusal is expected
             trace[0] = 'err ' + type(err).__name__
             return {'lines': lines, 'trace': trace, 'steps': [], 'tags': ['kind=timer', 'ctor=' + type(err).__name__],
                     'nontrivial': True, 'aborted': False, 'ctor_error': type(err).__name__}
